@@ -122,7 +122,7 @@ Proof.
   { rewrite <- Z.negb_odd. destruct (Z.odd yP); cbn [negb]; [|reflexivity].
     unfold sc_neg, mneg. rewrite Z_mod_nz_opp_full by (rewrite Z.mod_small; lia). rewrite Z.mod_small by lia. reflexivity. }
   rewrite Ed. set (d := if Z.even yP then d0 else n - d0).
-  unfold schnorr_nonce. cbn [Z.eqb]. unfold nonce_bip340, sc_to_b32.
+  unfold schnorr_nonce. cbn [Z.eqb orb]. unfold nonce_bip340, sc_to_b32.
   change tag_bip340_aux with tag_aux. change tag_bip340_nonce with tag_nonce.
   set (rand := tagged_hash tag_nonce _).
   unfold sc_of_b32. cbn [fst].
